@@ -388,10 +388,11 @@ class Fn(object):
                 if not ok:
                     lines += self.poison_stmt(s, "a branch changes the type of a variable", ind)
                     continue
-                lines.append(ind + "let %s : %s ← if %s then do" % (tmp if len(names) > 1 else tup, ty, c))
+                lines.append(ind + "let %s : %s ← (if %s then (do" % (tmp if len(names) > 1 else tup, ty, c))
                 lines += res[0]
-                lines.append(ind + "  else do")
+                lines.append(ind + "    ) else (do")
                 lines += res[1]
+                lines.append(ind + "    ))")
                 lines += self.unpack(names, tmp, ind)
                 continue
             if isinstance(s, ast.For):
